@@ -388,6 +388,27 @@ def verify_const_guarded(rep, idxs, member):
         if cl.bad:
             ok = False
             details.append('%s reads ValDecl::getValue() without an isConst() guard at %s' % (f.sig, sorted(set(cl.bad))))
+    # The guard reads isConst() of the *expression* as a proxy for "ConstProp has visited this declaration and stored its value".  That
+    # is sound only while ConstProp is the one place that makes an expression constant: a constructor or another pass that sets
+    # Expr::constValue lets the guard succeed before ValDecl::exprValue has been written (val a = b; val b = 5).
+    setter = [m for m in idx.record('xcmp::Expr').methods if m.body is not None and any(
+        x['kind'] == 'MemberExpr' and x.get('name') == 'constValue' and cast.is_this_member(x) for x in walk(m.body)) and
+        any(x['kind'] in ('BinaryOperator', 'CXXOperatorCallExpr', 'CXXMemberCallExpr') and
+            (x.get('opcode') == '=' or callee_of(x)[1] in ('operator=', 'emplace', 'reset')) for x in walk(m.body))]
+    setter_ids = {m.id for m in setter} | {m.defn.id for m in setter if getattr(m, 'defn', None)}
+    outside = []
+    for f in idx.all_funcs():
+        if f.node.get('isImplicit') or not f.qname.startswith('xcmp::'):
+            continue
+        roots = ([f.body] if f.body is not None else []) + [c_ for c_ in children(f.node) if c_.get('kind') == 'CXXCtorInitializer']
+        for r_ in roots:
+            for c in calls_in(r_):
+                if callee_of(c)[2] in setter_ids and not f.qname.startswith('xcmp::ConstProp::'):
+                    outside.append('%s at %s' % (f.qname, pos(c)))
+    if outside:
+        ok = False
+        details.append('an expression is made constant outside ConstProp (%s): the isConst() guard can then hold for a val whose value has '
+                       'not been stored yet, and the uninitialised ValDecl::exprValue is read' % ', '.join(sorted(set(outside))[:4]))
     # the single writer stores under the same guard
     w = idx.func('xcmp::ConstProp::visitPost', 'ValDecl')
     cl = ConstGuardClient(idx)
